@@ -560,3 +560,7 @@ fn test_cstring_io() {
     check(4, &[1, 2, 3, 4], vec![1, 2, 3, 4, 0, 0, 0, 0]);
     check(4, &[1, 2, 3, 4, 5], vec![1, 2, 3, 4, 5, 0, 0, 0]);
 }
+
+#[cfg(kani)]
+#[path = "/verif/contracts/kani/io.rs"]
+mod verif_kani;
